@@ -136,6 +136,7 @@ def _sem_hole(ex, fr, k):
     cv = ex.list_sv(ex.p.cell(ctx).fields["context_values"])
     top = cv.z[z3.Length(cv.z) - 1]
     new = H(k)(sv.z, top)
+    ex.p.assume(z3.Length(new) >= 1)  # simplification: a sub-program leaves at least one value (no implicit input inside the clauses)
     ex.p.cell(st).sv = SV(new, SEQ(VAL))
     ex.w.used_assumption("a sub-program is a deterministic function of the stack it finds and of the context value (it does not read inputs or variables): simplification of the refinement clauses")
     return None
@@ -174,6 +175,13 @@ def forfold(its, s):
     return s if len(its) == 0 else forfold(its[1:], H7001(s, its[0]))
 
 
+@W.spec([SEQ(VAL), VAL], SEQ(VAL))
+def whileloop(s1, n0):
+    """while loop, entered with the condition code already run (s1 ends with the condition value):
+    while it is truthy run the body with n bound to it, then the condition code again"""
+    return whileloop(H7001(H7002(s1[:-1], s1[-1]), n0), n0) if truthy(s1[-1]) else s1[:-1]
+
+
 S1 = "S0[:len(S0) - 1]"
 X = "S0[-1]"
 SEM_PROBES = {
@@ -186,6 +194,8 @@ SEM_PROBES = {
         ("C01-if-else-branch-selection (context value as implemented)", f"stack == (H7001({S1}, cv0[-1]) if truthy({X}) else H7002({S1}, cv0[-1]))")]),
     "for": ("(7001)", ["len(stack) >= 1"], [
         ("C01-for-runs-the-body-once-per-item-with-n-bound-to-it", f"stack == forfold(items(iterable({X}, range, ctx)), {S1})")]),
+    "while": ("{7001|7002}", ["len(stack) >= 0"], [
+        ("C01-while-runs-condition-then-body-while-truthy-with-n-bound-to-the-condition", "stack == whileloop(H7001(S0, cv0[-1]), cv0[-1])")]),
     "list": ("⟨7001|7002⟩", ["len(stack) >= 0"], [
         ("C01-list-items-each-on-their-own-copy-of-the-stack", "len(stack) == len(S0) + 1 and stack[:len(S0)] == S0"),
         ("C01-list-item-values", "implies(len(H7001(S0, cv0[-1])) > 0 and len(H7002(S0, cv0[-1])) > 0, items(stack[-1]) == [H7001(S0, cv0[-1])[-1], H7002(S0, cv0[-1])[-1]])")]),
@@ -209,7 +219,10 @@ def structure_semantics(world):
             params=dict(stack=ListOf(VAL), ctx=full_ctx()),
             loops={0: dict(inv=[f"forfold({ITS}, S0[:len(S0) - 1]) == forfold({ITS}[_k:], stack)", "ctx.context_values == cv0"],
                            hints=[f"unfold(forfold({ITS}[_k:], stack))"], asserts_end=[f"{ITS}[_k - 1:][1:] == {ITS}[_k:]", f"{ITS}[_k - 1:][0] == {ITS}[_k - 1]"],
-                           hints_exit=[f"unfold(forfold({ITS}[_k:], stack))"])} if name == "for" else {},
+                           hints_exit=[f"unfold(forfold({ITS}[_k:], stack))"])} if name == "for" else
+                  ({0: dict(inv=["whileloop(H7001(S0, cv0[-1]), cv0[-1]) == whileloop(stack + [condition], cv0[-1])", "ctx.context_values == cv0", "len(ctx.inputs) >= 1"],
+                            hints=["unfold(whileloop(stack + [condition], cv0[-1]))"],
+                            asserts_end=[], hints_exit=["unfold(whileloop(stack + [condition], cv0[-1]))"])} if name == "while" else {}),
             lets={"S0": "stack", "cv0": "ctx.context_values"},
             requires=req + ["len(ctx.inputs) >= 1", "len(ctx.context_values) >= 1", "len(ctx.stacks) >= 1", "not ctx.reverse_flag"],
             ensures=[c for _, c in clauses], ensures_names=[n for n, _ in clauses],
@@ -282,3 +295,64 @@ def modifier_semantics(world):
 
 
 W.analysis("semantics#modifiers", modifier_semantics, props=["C01"])
+
+
+# ---- the lambda call protocol (Structures.md: arguments are popped from the caller's stack per the arity rule,
+# the body runs on a stack of its own holding them, n is the argument (or the list of arguments), the result is the top)
+LAM_ITEMS = "(revv(A0[len(A0) - min(k, len(A0)):]) + reads(ins0, top0, k - min(k, len(A0))))"
+
+
+def lambda_semantics(world):
+    import vyxal.transpile as tr
+    from .templates import _nested_defs
+
+    rep = FunctionReport("semantics#lambda")
+    world.sink_handler = _template_sink
+    world.hole_contract = _sem_hole
+    world.val_never_none = True
+    errors, texts = [], []
+    for name, prog, karity in (("lambda", "λ7001;", "ctx.default_arity"), ("lambda-arity", "λ2|7001;", "2")):
+        text = holes_in(tr.transpile(prog))
+        texts.append(text)
+        top = template_function(text, "tpl")
+        nds = _nested_defs(top)
+        if len(nds) != 1:
+            errors.append(f"{name}: expected one nested lambda definition")
+            continue
+        nd = nds[0]
+        # effective arity: explicit call arity, else a stored arity on the function value, else the written one
+        K = f"(arity if arity != -1 else (self.stored_arity if 'stored_arity' in dir(self) else {karity}))"
+        STK = LAM_ITEMS.replace("k", f"({K})") if False else None
+        key = f"template::semlambda[{name}].{nd.name}"
+        fn = RealFn(key, nd, elements_globals())
+        fn.relpath = "template"
+        world.fn_index[key] = fn
+        world.index_loops(nd)
+        clause_items = f"(revv(A0[len(A0) - min(kk, len(A0)):]) + reads(ins0, top0, kk - min(kk, len(A0))))"
+        world.contracts[key] = Contract(
+            key,
+            params=dict(arg_stack=ListOf(VAL), self=VAL, arity=INT, ctx=full_ctx()),
+            lets={"A0": "arg_stack", "ins0": "ctx.inputs", "top0": "ctx.use_top_input", "cv0": "ctx.context_values", "kk": K},
+            requires=["len(ctx.inputs) >= 1", "len(ctx.context_values) >= 1", "len(ctx.stacks) >= 1", "ctx.default_arity >= 0", "arity >= -1", "not ctx.reverse_flag"],
+            ensures=[
+                f"arg_stack == A0[:len(A0) - min(kk, len(A0))]",
+                f"implies(kk != 1, result == [H7001({clause_items}, list(deep_copy({clause_items})))[-1]])",
+                f"implies(kk == 1, result == [H7001({clause_items}, deep_copy({clause_items}[0]))[-1]])",
+            ],
+            ensures_names=["C01-lambda-pops-its-arity-from-the-caller", "C01-lambda-result-is-top-of-own-stack (n = list of arguments)", "C01-lambda-result-is-top-of-own-stack (n = the single argument)"],
+            modifies=["arg_stack"] + CTX_MODS, frame_check=False, fuel=4, may_raise=True,
+        )
+        r = verify_function(world, key, executor_cls=SemExecutor)
+        rep.paths += r.paths
+        rep.obligations += [ob for ob in r.obligations if ob.kind != "cover"]
+        if r.error:
+            errors.append(f"{name}: {r.error}")
+    if errors:
+        rep.error, rep.error_kind = "; ".join(errors[:5]), "subset"
+    import hashlib
+
+    rep.source_hash = hashlib.sha256(repr(texts).encode()).hexdigest()[:16]
+    return rep
+
+
+W.analysis("semantics#lambda", lambda_semantics, props=["C01"])
